@@ -29,9 +29,16 @@ type shTask struct {
 }
 
 var tmplIDs = []string{"T", "U"}
-var plainOK = []string{"s0", "s1", "sd", "se", "t0", "td"}
+var plainOK = []string{"s0", "s1", "sd", "se", "t0", "td", "b0", "b1"}
 var plainBad = []string{"sx", "si", "sn", "t1"}
-var tmplScripts = []string{"t0", "t1", "td", "s0", "sd"}
+var tmplScripts = []string{"t0", "t1", "td", "s0", "sd", "b0", "b1"}
+
+// Batch scripts (b0 reads db.rp, b1 reads odb.orp; StartBatching is refused when the task's dbrps do not contain it)
+// appear in a third of the cases only, so that the stream-only histories keep their density. A case that has seen a
+// batch script gets no `die` afterwards: the poison that kills a task travels through stream forks only.
+var batchScripts = []string{"b0", "b1"}
+
+func isBatchScript(sc string) bool { return sc == "b0" || sc == "b1" }
 
 func genCase(r *kit.Rand, idx int, tier string) []string {
 	mode := 0
@@ -49,6 +56,24 @@ func genCase(r *kit.Rand, idx int, tier string) []string {
 	}
 	sh := &shadow{task: map[string]*shTask{}, tmpl: map[string]string{}}
 	var ops []string
+	withBatch := idx%3 == 1
+	sawBatch := false
+	// pick a script from a pool; batch scripts only in batch cases (there: preferred one time in three)
+	pickScript := func(pool []string) string {
+		for {
+			sc := kit.Pick(r, pool)
+			if withBatch && r.Chance(1, 3) {
+				sc = kit.Pick(r, batchScripts)
+			}
+			if isBatchScript(sc) && !withBatch {
+				continue
+			}
+			if isBatchScript(sc) {
+				sawBatch = true
+			}
+			return sc
+		}
+	}
 	add := func(op string) {
 		// oracle decorations
 		if (mode == 1 || mode == 2) && r.Chance(1, 4) && !strings.HasPrefix(op, "tdelete") && !strings.HasPrefix(op, "tcreate") && !strings.HasPrefix(op, "delete") {
@@ -104,12 +129,15 @@ func genCase(r *kit.Rand, idx int, tier string) []string {
 		return ""
 	}
 	explicitDBRPs := []string{"db.rp", "db.rp,db2.rp2", "x.y"}
+	if withBatch {
+		explicitDBRPs = []string{"db.rp", "db.rp,odb.orp", "odb.orp", "x.y"}
+	}
 	for len(ops) < 2*size {
 		k := r.Intn(100)
 		switch {
 		case k < 8 || (len(sh.tmpl) == 0 && k < 20): // template create
 			id := kit.Pick(r, tmplIDs)
-			sc := kit.Pick(r, tmplScripts)
+			sc := pickScript(tmplScripts)
 			if r.Chance(1, 6) {
 				sc = kit.Pick(r, []string{"sx", "si", "sn", "-"})
 			}
@@ -133,7 +161,7 @@ func genCase(r *kit.Rand, idx int, tier string) []string {
 					}
 				}
 			} else {
-				sc := kit.Pick(r, plainOK)
+				sc := pickScript(plainOK)
 				if r.Chance(1, 5) {
 					sc = kit.Pick(r, append(plainBad, "-"))
 				}
@@ -164,7 +192,7 @@ func genCase(r *kit.Rand, idx int, tier string) []string {
 					parts = append(parts, "st=e")
 				}
 			case 2: // script
-				sc := kit.Pick(r, plainOK)
+				sc := pickScript(plainOK)
 				if r.Chance(1, 4) {
 					sc = kit.Pick(r, plainBad)
 				}
@@ -190,7 +218,7 @@ func genCase(r *kit.Rand, idx int, tier string) []string {
 					parts = append(parts, "id="+pickOr(free(), taskIDs))
 				}
 			case 7: // everything at once
-				parts = append(parts, "id="+pickOr(free(), taskIDs), "s="+kit.Pick(r, plainOK), strings.TrimSpace(" "+strings.TrimSpace(status())))
+				parts = append(parts, "id="+pickOr(free(), taskIDs), "s="+pickScript(plainOK), strings.TrimSpace(" "+strings.TrimSpace(status())))
 			default: // no-op update / re-assert status
 				if s := status(); s != "" {
 					parts = append(parts, strings.TrimSpace(s))
@@ -220,7 +248,9 @@ func genCase(r *kit.Rand, idx int, tier string) []string {
 					sh.task[nid] = t
 				}
 			}
-		case k < 66 && len(existing()) > 0: // run-time death of a (preferably enabled) task
+		case k < 64 && len(existing()) > 0: // the snapshotter saves a snapshot of a task
+			ops = append(ops, fmt.Sprintf("snap %s %s", pickOr(existing(), taskIDs), kit.Pick(r, []string{"p1", "p2", "p3"})), "list")
+		case k < 66 && len(existing()) > 0 && !sawBatch: // run-time death of a (preferably enabled) task
 			var en []string
 			for _, id := range existing() {
 				if sh.task[id].enabled {
@@ -247,9 +277,15 @@ func genCase(r *kit.Rand, idx int, tier string) []string {
 				op += " id=" + nid
 			}
 			if r.Chance(5, 6) || nid == "" {
-				sc := kit.Pick(r, tmplScripts)
+				sc := pickScript(tmplScripts)
 				if r.Chance(1, 5) {
-					sc = kit.Pick(r, []string{"sx", "si", "sn"})
+					// a template keeps its stored Type when it is updated with a script that names no task type (sn);
+					// the model derives the type from the script, so sn is used where every template is a stream template
+					if withBatch {
+						sc = kit.Pick(r, []string{"sx", "si"})
+					} else {
+						sc = kit.Pick(r, []string{"sx", "si", "sn"})
+					}
 				}
 				op += " s=" + sc
 			}
